@@ -219,11 +219,33 @@ def run(cfg, ctx):
     u = Unroll(b)
     step = _step(cfg)
     model, asm, per_cycle, wit = None, [], [], {}
+    # Known finding C23 (ILVT memories with write granularity and >= 2 write ports): a PARTIAL write through port k to a row whose
+    # live bank is another one leaves the other granules stale.  For this shape the history predicate `trig` ("such a write happened
+    # in an earlier cycle") is tracked beside the design; the obligations are decided under NOT trig (anything found there is a
+    # violation of its own), and one extra query without the restriction reports the known finding - deterministically, whatever
+    # model the solver picks.
+    known_shape = "ILVT" in cfg["cls"] and cfg.get("gran") is not None and cfg["nw"] >= 2
+    nw, depth = cfg["nw"], cfg["depth"]
+    lb = max((nw - 1).bit_length(), 1)
+    live = [z3.BitVecVal(0, lb) for _ in range(depth)]     # data and live-value table start in bank 0
+    trig = z3.BoolVal(False)
+    unrestricted = []
     for t in range(K):
         o = u.cycle()
         ob, a, model, w = step(model, o, t)
         asm += a
-        per_cycle.append((ob, list(asm)))
+        unrestricted.append((ob, list(asm)))
+        per_cycle.append((ob, list(asm) + ([z3.Not(trig)] if known_shape else [])))
+        if known_shape:
+            full = z3.BitVecVal((1 << o.sig("w0.en").size()) - 1, o.sig("w0.en").size())
+            now = []
+            for j in range(nw):
+                en, ad = o.sig(f"w{j}.en"), o.sig(f"w{j}.addr")
+                for row in range(depth):
+                    hit = z3.And(en != 0, ad == row)
+                    now.append(z3.And(hit, en != full, live[row] != j))
+                    live[row] = z3.If(hit, z3.BitVecVal(j, lb), live[row])
+            trig = z3.Or(trig, *now)
         for k, c in w.items():
             wit.setdefault(k, []).append(c)
         u.advance()
@@ -242,6 +264,12 @@ def run(cfg, ctx):
             if r is not True:
                 return        # first failing cycle = shortest counterexample of this configuration
         lemmas += [c for _, c in ob]
+    if known_shape:
+        # everything above holds in histories without the trigger; the same obligations without the restriction:
+        anybad = z3.Or(*[z3.Not(c) for ob, _ in unrestricted for _, c in ob])
+        ctx.witness(f"{name}: a partial write to a row living in another bank is reachable", asm + [trig])
+        ctx.refute(f"{name}: every read returns the data of the ideal memory also after a partial write to a row living in another bank "
+                   f"[{KNOWN_MARK}], {K} cycles (BMC from reset)", asm + [anybad], u, [f"{KNOWN_MARK}"], bad_by_cycle=bad)
     if ctx.index < 3:
         pts, mism = cosim(b, 10, ctx.seed)
         ctx.cosim_points += pts
@@ -250,9 +278,16 @@ def run(cfg, ctx):
             ctx.errors.append(f"cosim mismatch encoder vs pysim in cfg {ctx.cfg}: {mism[:4]}")
 
 
+KNOWN_MARK = "only reachable through a partial write to a row whose live bank is another port's"
+
+
 def classify(v):
     """Class label of a violation (used by known_findings matching and in reports); derived from cfg and the replayed trace."""
     import re
+
+    if KNOWN_MARK in v.get("name", ""):
+        # this query is only posed after the same obligations were proved for all histories WITHOUT such a write
+        return "ilvt-granularity-partial-write-moves-row-to-other-bank"
 
     c = v.get("cfg", {})
     cls = c.get("cls", "")
